@@ -58,7 +58,7 @@ def invariant(field_name):
 
 
 def contract(module, qual, params, modifies=(), raises=(), kind="function", cls=None, result=None,
-             param_types=None, defaults=None, trusted=False, note=None):
+             param_types=None, defaults=None, trusted=False, note=None, free=()):
     """Class decorator. The class body holds `requires(...)`, `ensures(..., result)` (or several
     `ensures_<clause>`), `exsures_<Exc>(...)` written in the verified subset."""
     def deco(k):
@@ -69,6 +69,9 @@ def contract(module, qual, params, modifies=(), raises=(), kind="function", cls=
         c.defaults = dict(defaults or {})
         c.trusted = trusted  # contract is assumed, the body is not verified (listed in evidence)
         c.note = note
+        # names in `params` that are not parameters of the function but free variables of a nested function (bound in
+        # the enclosing function's frame at run time): the contract quantifies over their values like over arguments
+        c.free = list(free)
         c.clauses = [n for n in vars(k) if n.startswith("ensures")]
         c.has_requires = "requires" in vars(k)
         c.exs = [n for n in vars(k) if n.startswith("exsures_")]
